@@ -1,6 +1,7 @@
 // C03-R1..R5 / C04-T1,T3: SQLiteBuildDB over the row model.
 #include "vf.h"
 #include VF_REPO_SRC(lib/Core/SQLiteBuildDB.cpp)
+unsigned char g_keyBytes[3][4]; unsigned g_keyLen[3];      // the keys of this query (shared with the row model)
 #include "sqlite_model.h"
 #ifndef VF_CASE
 #define VF_CASE 0
@@ -18,7 +19,7 @@
 #define VF_NV 1
 #endif
 // engine side: three keys with arbitrary bytes; KeyIDs are arbitrary distinct non-zero numbers
-static unsigned char g_keyBytes[3][4]; static unsigned g_keyLen[3]; static uint64_t g_keyId[3];
+static uint64_t g_keyId[3];
 struct HDelegate : public BuildDBDelegate {
   const KeyID getKeyID(const KeyType& key) override {
     for (int i = 0; i < 3; i++) if (key.size() == g_keyLen[i]) {
